@@ -294,3 +294,23 @@ CHECKS["C05"] = dict(
     assumptions=_TUN_ASSUME + ["every Send call carries its own telegram (a retry after a failed Send is a new telegram)"],
     jobs=[dict(name="bubble", pkg="./tun", go=GO126, test="TestC05B", shards=(4, 16), checks=(1500, 25000), timeout=(600, 3000))],
 )
+
+_SOCK_ASSUME = ["loopback UDP/TCP (and, for discovery, IPv4 multicast on the default interface) is available in the sandbox; a facility that is missing makes the dependent sub-oracle skip (recorded in the evidence), never fail",
+                "UDP peers transmit in windows of 4 datagrams so that loopback never drops; upper time bounds use a 5 s limit for millisecond-scale operations"]
+
+CHECKS["C16"] = dict(
+    rule=("rapid-drawn socket scenarios on loopback: TCP streams of 1..50 concatenated well-formed frames of every service type (plus unknown "
+          "services with bodies up to 65529 bytes) written as one segment, a single cut at a drawn position, 1-byte dribble or irregular "
+          "segments, with and without pauses, ended by the peer or by Close; every single cut position of a fixed 4-frame stream "
+          "(exhaustive); UDP sequences of 1..40 datagrams; 1..8 goroutines sending 1..40 frames concurrently over UDP and TCP; "
+          "knx.NewTunnel over both socket kinds with SendLocalAddress on/off. Non-trivial = TCP stream of >= 2 frames with a cut, or "
+          ">= 2 concurrent senders, or a UDP/HPAI case; distinct by plan."),
+    level_text=("Sampled streams and segmentations on real kernel sockets; oracle: the values read from Inbound() equal the in-process "
+                "decodes of the transmitted frames, in order, each once; every unit the peer receives is the complete encoding of one sent "
+                "frame; Inbound() closes and the receiver goroutine ends after Close / peer close; the connect request's endpoints equal "
+                "the datagram's source (or the zero endpoint with the right protocol code)."),
+    level_note="Trusted: the in-process decode as the expected value (C01/C02 judge the decoder itself). The harness controls write boundaries; the kernel decides read boundaries.",
+    technique="rapid-generated frame streams x segmentations against live loopback sockets (differential against in-process decoding; multiset/no-interleaving oracle for concurrent Sends)",
+    assumptions=_SOCK_ASSUME,
+    jobs=[dict(name="sock", pkg="./sock", go=GO, test="TestC16", shards=(4, 16), checks=(150, 3000), timeout=(600, 3000))],
+)
